@@ -23,11 +23,14 @@ pub struct EvSpec {
     pub params: Vec<(String, PVal)>,
     #[serde(default)]
     pub content: Option<String>,
+    /// invoke id stamped on the event (an event that claims to come from an invoked child)
+    #[serde(default)]
+    pub invokeid: Option<String>,
 }
 
 impl EvSpec {
     pub fn simple(name: &str) -> EvSpec {
-        EvSpec { name: name.to_string(), params: vec![], content: None }
+        EvSpec { name: name.to_string(), params: vec![], content: None, invokeid: None }
     }
     pub fn to_event(&self) -> Event {
         let mut e = Event::new_simple(&self.name);
@@ -49,6 +52,9 @@ impl EvSpec {
         }
         if let Some(c) = &self.content {
             e.content = Some(Data::String(c.clone()));
+        }
+        if let Some(i) = &self.invokeid {
+            e.invoke_id = Some(i.clone());
         }
         e
     }
